@@ -116,6 +116,28 @@ def describe(v):
     return repr(v)
 
 
+# Who judges a path that ends in a panic (explicit `panic!`, failed `debug_assert!`, `unwrap` on `None`/`Err`)?  "No operation
+# panics" is the statement of C17 (and of the first clause of C06); the functional properties are stated about the calls that
+# return.  Under policy 'skip' a rule neither blames nor uses a panicking path: the returning paths keep the negated panic
+# condition as a fact, and the panic itself is an obligation of C17's R-PANIC (which runs with policy 'judge').
+PANIC_POLICY = ['judge']
+PANICS_LEFT_TO_C17 = [0]
+
+
+class panic_policy:
+    """context manager: who judges panicking paths inside this block ('judge' | 'skip')"""
+
+    def __init__(self, mode):
+        self.mode = mode
+
+    def __enter__(self):
+        self.saved = PANIC_POLICY[0]
+        PANIC_POLICY[0] = self.mode
+
+    def __exit__(self, *a):
+        PANIC_POLICY[0] = self.saved
+
+
 def sem_iter(outs, include_loopback=False):
     """iterate over outcomes with term equality interpreted under each outcome's own ranges and facts.
     Back-edge outcomes of the loop abstraction are not results of the function and are skipped by default."""
@@ -123,6 +145,9 @@ def sem_iter(outs, include_loopback=False):
     try:
         for o in outs:
             if o.status in ('loopback', 'probe-exit') and not include_loopback:
+                continue
+            if o.status == 'panic' and PANIC_POLICY[0] == 'skip':
+                PANICS_LEFT_TO_C17[0] += 1
                 continue
             set_sem(o.ctx)
             yield o
